@@ -176,8 +176,25 @@ def run_case(case, observer=None):  # pylint: disable=too-many-locals,too-many-b
             elif qkind == 'bulkseek':
                 log.append(f'{tag}({[k[:6] for k in request]})')
                 seen = {}
+                # optionally ANOTHER handle packs (and cleans) between two yields of this iteration: the rest of the iteration is
+                # served by the reader's fall-back loop (the library's own tests do the same in test_simulate_concurrent_packing)
+                midpack = bool(op['f'] & 8) and hidx != 0
+                yielded = 0
+                stream = None
                 with cont.get_objects_stream_and_meta(request, skip_if_missing=False) as triplets:
                     for key, stream, meta in triplets:
+                        yielded += 1
+                        if midpack and yielded == 2:
+                            mode = MODES_PACK[op['a'] % len(MODES_PACK)]
+                            handles[0].pack_all_loose(compress=_mode(mode))
+                            handles[0].clean_storage()
+                            log.append(f'  [between yields] h0.pack({mode}); h0.clean()')
+                            labels.add('pack-between-yields')
+                            queried[0] = True
+                            stale[0] = False
+                            for i in range(1, len(handles)):
+                                if queried[i]:
+                                    stale[i] = True
                         if observer is not None:
                             observer('triplet', root, len(handles), log)
                         if stream is None:
@@ -190,6 +207,10 @@ def run_case(case, observer=None):  # pylint: disable=too-many-locals,too-many-b
                         tail = stream.read()
                         stream.seek(0)
                         seen[key] = (stream.read(), tail, meta.size)
+                if observer is not None:
+                    # the iteration is over and its context left, the last stream is still referenced by this frame
+                    observer('after-bulk', root, len(handles), log)
+                del stream
                 want = {k: ((model[k], model[k][len(model[k]) - min(len(model[k]), 1 + op['f'] % 4) :], len(model[k])) if k in model else None) for k in set(request)}
                 if seen != want:
                     bad = [k[:6] for k in want if seen.get(k, 'absent') != want[k]]
